@@ -31,9 +31,9 @@ def leftOf : String → Option Left
 
 def revOf (j : Json) : Rev :=
   let img := str j "img"
-  { ptype := ptypeOf (str j "ptype"), key := str j "key", skey := str j "skey",
+  { ptype := ptypeOf (str j "ptype"), key := str j "key", skey := str j "skey", source := str j "source",
     docs := (arr j "docs").map docOf,
-    imgOk := img != "twoann" && img != "nofile",
+    imgOk := img != "twoann" && img != "nofile" && img != "toomany",
     never := bool j "never", ignore := bool j "ignore" }
 
 def preEntry (r : Rev) : String → Option Entry
@@ -42,21 +42,50 @@ def preEntry (r : Rev) : String → Option Entry
   | "hdr" => some (.broken true)
   | _ => none
 
+def getEOf : String → GetE
+  | "miss" => .miss
+  | "" => .ok
+  | _ => .err
+
+/-- class of a failed write, as the code distinguishes them -/
+def wErrOf : String → WErr
+  | "" => .ok
+  | "conflict" => .conflict
+  | "notfound" => .notFound
+  | _ => .err
+
+def envOf : String → Except String Env
+  | "" => .ok .none
+  | "touch" => .ok .touch
+  | "wipe" => .ok .wipe
+  | "recreate" => .ok .recreate
+  | "flip" => .ok .flip
+  | e => .error s!"unknown third-party action {e}"
+
+def cfgOf (j : Json) : ImgCfg :=
+  { name := str j "name", prefixes := strs j "prefixes",
+    verif := match str j "verif" with | "cosign" => .cosign | "nocosign" => .nocosign | _ => .none,
+    ok := bool j "ok" }
+
 def stepOf (j : Json) : Except String Step :=
   let i := nat j "r"
-  if str j "k" == "sig" then
-    let cfg := match str j "sigCfg" with | "some" => SigCfg.some | "err" => .err | _ => .none
-    .ok (.verify i cfg (bool j "sigOK"))
+  let f := obj j "f"
+  if str j "k" == "cfg" then
+    .ok (.configs ((arr j "cfgs").map cfgOf))
+  else if str j "k" == "sig" then
+    .ok (.verify i { getE := getEOf (str f "getE"), stat := str f "stat" != "", listErr := str j "sigCfg" == "err" })
   else
-    let f := obj j "f"
     let o := obj j "o"
-    match leftOf (str o "left") with
-    | none => .error s!"unknown leftover class {str o "left"}"
-    | some left =>
-      let upd := match str f "upd" with | "conflict" => Upd.conflict | "err" => .err | _ => .ok
+    match leftOf (str o "left"), envOf (str f "env") with
+    | none, _ => .error s!"unknown leftover class {str o "left"}"
+    | _, .error e => .error e
+    | some left, .ok env =>
+      let upd := match str f "upd" with | "conflict" => Upd.conflict | "" => .ok | _ => .err
       .ok (.reconcile i (bool j "active") (bool j "deleted")
         { init := bool f "init", read := int f "read" ≥ 0, store := str f "store" != "",
-          seen := bool o "seen", left := left, get := bool f "get", del := bool f "del", upd := upd, est := bool f "est" })
+          seen := bool o "seen", left := left, get := bool f "get", del := bool f "del", upd := upd, est := bool f "est",
+          estConflict := str f "estC" == "conflict", getE := getEOf (str f "getE"), fin := wErrOf (str f "fin"),
+          stat := str f "stat" != "", env := env })
 
 def healthStr : Health → String
   | .none => "none" | .healthy => "healthy" | .unhealthy => "unhealthy" | .unknown => "unknown" | .awaiting => "awaiting"
@@ -74,7 +103,8 @@ def objJson (o : Obj) : Json := Json.arr #[.str o.gvk, .str o.name]
 
 def stepIdx : Step → Nat
   | .reconcile i _ _ _ => i
-  | .verify i _ _ => i
+  | .verify i _ => i
+  | .configs _ => 0
 
 def obsJson (revs : List Rev) (w : World) (i : Nat) (o : Out) : Json :=
   let st := (w.sts[i]?).getD {}
@@ -97,7 +127,8 @@ def stepOk (feature : Bool) (revs : List Rev) (w : World) (s : Step) (o : Out) :
     (match parse r.docs with
      | some p => os == p.objs && specOK r.ptype p && (r.ignore || compatible p)
      | none => false) &&
-    (!feature || ((w.sts[i]?).map (fun st => st.verif.isTrue)).getD false)
+    (!feature || ((w.sts[i]?).map (fun st => st.verif.isTrue)).getD false) &&
+    (match s with | .reconcile _ _ _ f => f.env == .none | _ => true)
   | _, _ => true
 
 /-- run a history, collecting the per-step observation and the model-side property
@@ -142,7 +173,7 @@ def handler : Handler := fun scn =>
       pure (s, bool j "par")
     let pres := (arr scn "revs").map fun j => str j "pre"
     let cache : Cache := (revs.zip pres).foldl (fun c (r, pre) => match preEntry r pre with | some e => c.put r.id e | none => c) Cache.empty
-    let w : World := { cache := cache, sts := revs.map fun _ => {} }
+    let w : World := { cache := cache, sts := revs.map fun _ => {}, cfgs := (arr scn "cfgs").map cfgOf }
     let (js, ok) := runObs (bool scn "feature") revs w steps
     .ok (Json.mkObj [("steps", Json.arr js.toArray)], ok, if ok then "" else "C15:model-installed-not-declared")
 
